@@ -183,6 +183,19 @@ static int run_history(const hist_t *h, char *err, size_t errlen, char *outcome,
         }
     }
     (void)started;
+    /* "each epoch behaves the same": one more, empty, epoch must start and complete normally (a history that leaves the
+     * context in a bad state is caught here, in the history that caused it) */
+    if (!bad) { i = h->nops; snprintf(opn, sizeof(opn), "probe-epoch"); idle_selects = 0;
+        int rc = parsec_context_start(g_ctx); ev("S");
+        if (rc != 0) FAIL("parsec_context_start returned %d on an idle context", rc);
+        if (!bad) { rc = parsec_context_wait(g_ctx); long R = wr_stamp(); ev("W"); char msg[256];
+            if (rc != 0) FAIL("parsec_context_wait returned %d", rc);
+            for (int p = 0; p < h->npools && !bad; p++) if (root_added[p]) {
+                if (rp[p].is_dtd) exp_cb[p]++;
+                if (pool_done_check(p, R, exp_cb[p], msg, sizeof(msg))) FAIL("when parsec_context_wait returned: %s", msg);
+            }
+        }
+    }
     /* final: nothing ran twice, nothing ran after its wait, every callback count is final */
     if (!bad) { i = h->nops; snprintf(opn, sizeof(opn), "end");
         for (int p = 0; p < h->npools && !bad; p++) {
@@ -196,11 +209,13 @@ static int run_history(const hist_t *h, char *err, size_t errlen, char *outcome,
         for (int a = 1; a < n; a++) { ev_t t = e[a]; int j = a; while (j > 0 && e[j - 1].s > t.s) { e[j] = e[j - 1]; j--; } e[j] = t; }
         int o = 0; outcome[0] = 0; for (int a = 0; a < n && o + 16 < (int)outlen; a++) o += snprintf(outcome + o, outlen - o, "%s ", e[a].txt);
     }
-    if (bad && use_hsched) return bad;   /* the runtime may be in an undefined state; the worker stops after reporting */
-    if (!bad || !use_hsched) for (int p = 0; p < h->npools; p++) {
+    if (bad) return bad;   /* the runtime may be in an undefined state; the worker stops after reporting */
+    for (int p = 0; p < h->npools; p++) {
         if (rp[p].is_dtd) parsec_taskpool_set_complete_callback(rp[p].tp, NULL, NULL);   /* the DTD destructor reports termination once more */
-        if (!bad) parsec_taskpool_free(rp[p].tp);
+        parsec_taskpool_free(rp[p].tp);
     }
+    /* anchored state: active_taskpools = unfinished taskpools + start token; all pools are gone and the context is idle */
+    if (g_ctx->active_taskpools != 0) { i = h->nops; snprintf(opn, sizeof(opn), "end"); FAIL("context->active_taskpools is %d after the history (idle context, every taskpool freed): the next epoch would not behave like this one", (int)g_ctx->active_taskpools); }
     return bad;
 }
 
